@@ -58,6 +58,7 @@ class UUBlock(nn.Module):
 def cases(draw, tier):
     family = draw(st.sampled_from(["program", "program", "program", "uu"]))
     c = dict(family=family, seed=draw(st.integers(0, 10**6)), calls=draw(st.integers(1, 3)), call_intermediates=draw(st.booleans()))
+    c["nnroot"] = family == "program" and draw(st.integers(0, 4)) == 0
     q = draw(st.sampled_from([None] + list(QUANTS) * 2))
     if family == "program":
         c["prog"] = draw(dsl.unit_programs(max_ops=10))
@@ -94,12 +95,12 @@ def prep(inputs):
     return {k: (v.clone().requires_grad_() if v.is_floating_point() else v.clone()) for k, v in inputs.items()}
 
 
-def run_once(m, inputs):
+def run_once(m, inputs, call=None):
     fl = prep(inputs)
     for p in m.parameters():
         p.grad = None
     with patch("torch.randint", pinned):
-        y = m(**fl)
+        y = call(m, fl) if call else m(**fl)
         y.backward()
     grads = {n: (None if p.grad is None else p.grad.detach().clone()) for n, p in m.named_parameters()}
     grads.update({"input:" + k: (None if fl[k].grad is None else fl[k].grad.detach().clone()) for k in FLOAT_INPUTS if k in fl})
@@ -157,6 +158,9 @@ def run(c) -> CaseResult:
     if c["family"] == "program":
         prog = c["prog"]
         m0 = dsl.build_module(prog, c["seed"])
+        if c.get("nnroot"):  # the program behind a root whose class is defined in torch.nn
+            m0 = dsl.nn_root(m0)
+            res.labels.append("root=nn.Sequential(program)")
         inputs = dsl.make_inputs(prog, c["seed"])
         src = m0._verif_source
     else:
@@ -165,17 +169,21 @@ def run(c) -> CaseResult:
         g = torch.Generator().manual_seed(c["seed"])
         inputs = dict(x=torch.randn(2, 4, c["h"], generator=g), g=torch.randn(2, 4, c["h"], generator=g))
         src = "UUBlock"
+    call = (lambda mod, d: dsl.call(mod, prog, d, True)) if c.get("nnroot") and prog is not None else None
+
+    def run_once_(mod, inp):
+        return run_once(mod, inp, call)
     sd0 = {k: v.detach().clone() for k, v in m0.state_dict().items()}
     attrs0 = set(vars(m0).keys())
-    r0 = run_once(m0, inputs)
+    r0 = run_once_(m0, inputs)
     mods = [m0]
     try:
         for t in full:
             if c.get("call_intermediates") and len(mods) > 1:
-                run_once(mods[-1], inputs)  # the intermediate module is used (compiled, cached) before it is transformed again
+                run_once_(mods[-1], inputs)  # the intermediate module is used (compiled, cached) before it is transformed again
             mods.append(apply(t, mods[-1]))
         final = mods[-1]
-        results = [run_once(final, inputs) for _ in range(c["calls"])]
+        results = [run_once_(final, inputs) for _ in range(c["calls"])]
     except Exception as e:  # noqa: BLE001
         res.fail(exc_bucket("C17.raises:" + ">".join(full), e).replace("outside-library", "via-dynamo")[:300], f"{type(e).__name__}: {str(e)[:300]}\n{src}")
         return res
@@ -186,7 +194,7 @@ def run(c) -> CaseResult:
             break
     if set(vars(m0).keys()) != attrs0:
         res.fail("C17.original.attributes", f"original gained attributes {sorted(set(vars(m0).keys()) - attrs0)}")
-    d = same_result(r0, run_once(m0, inputs))
+    d = same_result(r0, run_once_(m0, inputs))
     if d:
         res.fail("C17.original.behaviour", f"{d} of the original module changed after transforms {'>'.join(full)}\n{src}")
     # ---- no shared storage between any two modules of the chain
@@ -226,7 +234,7 @@ def run(c) -> CaseResult:
         ref = (yr.detach(), dict(zip(["input:" + k for k in FLOAT_INPUTS if k in fr] + list(P.keys()), gr)))
         lossy_sr = qname in ("fp8", "e4m3-sr3", "e5m2-nearest")
         # compared on the chain *without* its terminating track_scales / compile (those are covered by the end-transform clause)
-        base_run = run_once(mods[len(chain)], inputs) if c["end"] else results[0]
+        base_run = run_once_(mods[len(chain)], inputs) if c["end"] else results[0]
         d = same_result(base_run, ref, tol=None if lossy_sr or qname == "lossless" else 2e-5)
         if d:
             res.fail("C17.semantics:" + ">".join(sorted(set(chain), key=lambda t: t != "unit_scale")),
@@ -243,8 +251,8 @@ def run(c) -> CaseResult:
             for t in chain[::-1]:
                 other = apply(t, other)
             other.load_state_dict(mods[len(chain)].state_dict())
-            ro = run_once(other, inputs)
-            base_result = run_once(mods[len(chain)], inputs)
+            ro = run_once_(other, inputs)
+            base_result = run_once_(mods[len(chain)], inputs)
             d = same_result(base_result, ro)
             if d:
                 res.fail("C17.order-dependent", f"{d} differs between {'>'.join(chain)} and {'>'.join(chain[::-1])} with synchronised parameters\n{src}")
@@ -252,7 +260,7 @@ def run(c) -> CaseResult:
             res.fail(exc_bucket("C17.raises:" + ">".join(chain[::-1]), e).replace("outside-library", "via-dynamo")[:300], f"{type(e).__name__}: {str(e)[:300]}")
     # ---- track_scales / compile at the end change nothing
     if c["end"]:
-        rb = run_once(mods[len(chain)], inputs)
+        rb = run_once_(mods[len(chain)], inputs)
         tol_end = None if c["end"] == "track_scales" else 1e-5
         if c["end"] == "track_scales":
             # tracking can change gradients in the last ulps (accumulation order, contiguous copies: C18's known finding); with a
